@@ -38,6 +38,18 @@ func vpC03Cell(ti int) {
 		return
 	}
 	vpDiffItems("roundtrip/"+cell, x, y, nil)
+	// the value (non-pointer) form of the same value goes through other arms of the encoder's dispatch
+	if v := vpValueOf(x); v != x {
+		bv, err := GobEncode(v)
+		vpAssert("value-form/encode/"+cell, err == nil && len(bv) > 0)
+		if len(bv) > 0 {
+			yv, err := GobDecode(bv)
+			vpAssert("value-form/decode/"+cell, err == nil && yv != nil)
+			if yv != nil {
+				vpDiffItems("value-form/roundtrip/"+cell, x, yv, nil)
+			}
+		}
+	}
 	vpReach("end")
 }
 
